@@ -192,4 +192,27 @@ example : tokenise "1 \"a\\\"b".toList = .error (.unclosedString 2) := by rfl
 example : Unescaped "a\\\"b\"".toList 4 ∧ ¬ Unescaped "a\\\"b\"".toList 2 := by simp [Unescaped]
 example : tokenise "#a# #".toList = .error (.unclosedInstant 4) := by rfl
 
+/-- **C11 (whitespace insertion).**  If `s` lexes to `toks` and position `j` is not strictly inside a token
+    (it is a token boundary, inside a gap, at the start or at/after the end), then `s` with any whitespace `ws`
+    inserted at `j` lexes to the same tokens: those that end at or before `j` unchanged, those after `j` with
+    their span moved by the length of `ws` (`moveAfter`), tags and values untouched. -/
+theorem C11_whitespace_insensitive (s ws : List Char) (j : Nat) (toks : List Token)
+    (hws : ∀ c ∈ ws, isSpace c = true) (h : tokenise s = .ok toks) (hj : NotInside toks j) :
+    tokenise (s.take j ++ (ws ++ s.drop j)) = .ok (toks.map (moveAfter j ws.length)) :=
+  tokenise_ins s ws j toks hws h hj
+
+/-- the same, as the property states it: the sequence of tags and the sequence of values do not change -/
+theorem C11_whitespace_tags_values (s ws : List Char) (j : Nat) (toks : List Token)
+    (hws : ∀ c ∈ ws, isSpace c = true) (h : tokenise s = .ok toks) (hj : NotInside toks j) :
+    ∃ toks', tokenise (s.take j ++ (ws ++ s.drop j)) = .ok toks'
+      ∧ toks'.map (·.tag) = toks.map (·.tag) ∧ toks'.map (·.val) = toks.map (·.val) := by
+  refine ⟨_, C11_whitespace_insensitive s ws j toks hws h hj, ?_, ?_⟩
+  · rw [List.map_map]; apply List.map_congr_left; intro t _
+    simp only [Function.comp, moveAfter]; split <;> rfl
+  · rw [List.map_map]; apply List.map_congr_left; intro t _
+    simp only [Function.comp, moveAfter]; split <;> rfl
+
+example : NotInside [⟨.num, 0, 1, .num (.int 1)⟩, ⟨.const "..", 1, 3, .none⟩] 1 := by
+  intro t ht; simp at ht; rcases ht with rfl | rfl <;> simp
+
 end KaVerif
